@@ -385,7 +385,7 @@ func runC18(p *core.Prog, r *core.Result) {
 		if m.dom(m.Evaluate, c) {
 			nn, known := p.FactsAt(c).ErrNonNil(evalErr)
 			okSave := false
-			for _, s := range m.Saves {
+			for _, s := range m.saveErrSites() {
 				if m.dom(s, c) {
 					if n2, k2 := p.FactsAt(c).ErrNonNil(s); k2 && !n2 {
 						okSave = true
@@ -405,7 +405,7 @@ func runC18(p *core.Prog, r *core.Result) {
 		}
 		nn, known := p.FactsAt(c).ErrNonNil(evalErr)
 		okSaveErr := false
-		for _, s := range m.Saves {
+		for _, s := range m.saveErrSites() {
 			if n2, k2 := p.FactsAt(c).ErrNonNil(s); k2 && n2 {
 				okSaveErr = true
 			}
